@@ -53,6 +53,9 @@ def run_one(m):
             return m, 'KILLED' + ('+replayed' if replayed else '') if ok else 'MISSED(exit %d)' % r.returncode, out[-1500:]
         else:
             ok = r.returncode == 0 and 'VIOLATION' not in out
+            if not ok and m.get('allow_undecided') and r.returncode == 2 and 'VIOLATION' not in out and 'ledger clause not generated' in out:
+                # a refactoring that changes WHICH obligations are generated: the ledger makes the run undecided (exit 2), never a violation
+                return m, 'QUIET(undecided: ledger)', out[-1500:]
             return m, 'QUIET' if ok else 'FALSE-ALARM(exit %d)' % r.returncode, out[-1500:]
     finally:
         shutil.rmtree(d, ignore_errors=True)
@@ -68,7 +71,7 @@ def main():
     bad = 0
     with concurrent.futures.ThreadPoolExecutor(jobs) as ex:
         for m, verdict, out in ex.map(run_one, muts):
-            good = verdict.startswith('KILLED') or verdict == 'QUIET' or verdict == 'STALE'
+            good = verdict.startswith('KILLED') or verdict.startswith('QUIET') or verdict == 'STALE'
             print('%-12s %-4s %-28s %s' % (verdict, m['property'], m['id'], m.get('what', '')), flush=True)
             if not good:
                 bad += 1
